@@ -135,55 +135,102 @@ def run(ctx, rep):
         rep.check(a_ok, 'R3', 'App', '%s:%d' % (f.file, f.line), 'App => "."', 'App is serialised as %s' % (arms.get('App'),))
         rep.check(d_ok, 'R3', 'Directory', '%s:%d' % (f.file, f.line), 'Directory(p) => p', 'Directory is serialised as %s' % (d and vstr(d[1]),))
     # ---- R4 ------------------------------------------------------------------------------------------
+    # Queue discipline, stated over interprocedural MUST / MAY effects so that helper extraction does not matter:
+    #   or():    on every path pushes (current_provides, current_requires) at the BACK and leaves both lists empty
+    #   build(): on every path first closes the current group the same way (also when it is empty), then takes the
+    #            FRONT as the top-level group; nothing is ever pushed at the front or popped from the back
+    from .lib.effects import Effects
+    QV = {'std::collections::VecDeque::<T, A>::push_back': ('QPUSH_BACK', 1), 'std::collections::VecDeque::<T, A>::push_front': ('QPUSH_FRONT', 1),
+          'std::collections::VecDeque::<T, A>::pop_front': ('QPOP_FRONT', 0), 'std::collections::VecDeque::<T, A>::pop_back': ('QPOP_BACK', 0),
+          'std::collections::VecDeque::<T, A>::insert': ('QPUSH_FRONT', 1)}
+    E = Effects(prog, sl, vocab=QV)
     orf = prog.fn('libcnb_data::build_plan::BuildPlanBuilder::or')
     bf = prog.fn('libcnb_data::build_plan::BuildPlanBuilder::build')
     rep.analysed(orf)
     rep.analysed(bf)
-    pushes = [c for c in orf.calls if c.name and 'VecDeque' in c.name and c.name.split('::')[-1].startswith('push')]
-    ok = len(pushes) == 1 and pushes[0].name.endswith('push_back')
+
+    def group_tuple_ok(fn, v):
+        """v = (self.current_provides, self.current_requires) — directly or through mem::take"""
+        v = strip(v)
+        if v[0] != 'tuple' or len(v[1]) != 2:
+            return False
+        names = []
+        for x in v[1]:
+            x = strip(x)
+            if x[0] == 'call' and x[1] in ('std::mem::take', 'std::mem::replace') and x[2]:
+                x = strip(x[2][0])
+            names.append(x[2] if x[0] == 'field' and strip(x[1])[0] == 'param' and strip(x[1])[2] == 0 else None)
+        return names == ['current_provides', 'current_requires']
+
+    def resets_ok(e):
+        """both current lists are empty after the push: assigned Vec::new()/default in the pushing function, or taken"""
+        f = e.call.fn
+        v = strip(sl.operand(f, e.call.args[1]))
+        taken = v[0] == 'tuple' and all(strip(x)[0] == 'call' and strip(x)[1] == 'std::mem::take' for x in v[1])
+        if taken:
+            return True
+        got = set()
+        for key, defs in f.defs().items():
+            if isinstance(key, tuple):
+                for d in defs:
+                    if d[0] == 'stmt':
+                        fld = [p_ for p_ in d[4][1:] if p_ != '*']
+                        val = strip(sl._rvalue(f, d[3], set(), 0, None))
+                        if fld and val[0] == 'call' and val[1] in ('std::vec::Vec::<T>::new', 'std::default::Default::default') and f.dominates(e.call.bb, d[1]):
+                            got.add(fld[0])
+        return {'.current_provides', '.current_requires'} <= got
+
+    om = [e for e in E.expand(orf, 'must') if e.kind == 'QPUSH_BACK']
+    ok = len(om) == 1 and group_tuple_ok(orf, om[0].path)
+    rep.check(ok, 'R4', 'or/push_back', '%s:%d' % (orf.file, orf.line), 'or() always appends (current_provides, current_requires) at the back',
+              'or() does not unconditionally push (current_provides, current_requires) at the back of the queue')
+    rep.check(ok and resets_ok(om[0]), 'R4', 'or/reset', '%s:%d' % (orf.file, orf.line), 'both current lists are left empty', 'or() does not reset both current lists')
+    bm = E.expand(bf, 'must')
+    bmay = E.expand(bf, 'may')
+    closes = [e for e in bm if e.kind == 'QPUSH_BACK']
+    pops = [e for e in bmay if e.kind == 'QPOP_FRONT']
+    order = [id(e) for e in bm]
+    ok = len(closes) == 1 and len(pops) == 1
     if ok:
-        v = strip(sl.operand(orf, pushes[0].args[1]))
-        ok = v[0] == 'tuple' and len(v[1]) == 2 and strip(v[1][0])[0] == 'field' and strip(v[1][0])[2] == 'current_provides' and strip(v[1][1])[2] == 'current_requires'
-    rep.check(ok, 'R4', 'or/push_back', '%s:%d' % (orf.file, orf.line), 'or() appends (current_provides, current_requires) at the back',
-              'or() does not push (current_provides, current_requires) at the back of the queue')
-    resets = {}
-    for d in orf.partial_defs(1):
-        if d[0] == 'stmt':
-            fld = [p for p in d[4][1:] if p != '*']
-            v = strip(sl._rvalue(orf, d[3], set(), 0, None))
-            resets[fld[0]] = v[0] == 'call' and v[1] == 'std::vec::Vec::<T>::new'
-    rep.check(resets.get('.current_provides') and resets.get('.current_requires'), 'R4', 'or/reset', '%s:%d' % (orf.file, orf.line),
-              'both current lists are reset', 'or() does not reset both current lists: %s' % resets)
-    names = [c.name for c in bf.calls if not c.indirect and c.name]
-    first_or = next((i for i, n in enumerate(names) if n == orf.path), None)
-    pops = [(i, n) for i, n in enumerate(names) if 'VecDeque' in n and n.split('::')[-1].startswith('pop')]
-    ok = first_or is not None and len(pops) == 1 and pops[0][1].endswith('pop_front') and first_or < pops[0][0]
-    rep.check(ok, 'R4', 'build/head', '%s:%d' % (bf.file, bf.line), 'build() closes the last group, then takes the front group as top level',
-              'build() does not take the front of the queue after closing the current group: %s' % pops)
+        mp = [e for e in bm if e.kind == 'QPOP_FRONT']
+        ok = bool(mp) and order.index(id(closes[0])) < order.index(id(mp[0]))
+    rep.check(ok, 'R4', 'build/head', '%s:%d' % (bf.file, bf.line), 'build() always closes the current group (even an empty one), then takes the front group as top level',
+              'build() does not unconditionally close the current group before taking the front of the queue: a trailing (empty) alternative can be lost')
+    bad = [e for e in bmay + E.expand(orf, 'may') if e.kind in ('QPUSH_FRONT', 'QPOP_BACK')]
+    rep.check(not bad, 'R4', 'fifo', '%s:%d' % (bf.file, bf.line), 'groups are only appended at the back and taken from the front', 'queue used out of FIFO order: %s' % [e.call.name for e in bad[:2]])
     # top-level provides/requires <- head.0/.1 ; Or{provides <- alt.0, requires <- alt.1}; iteration in order
+    reach = [bf] + [f for f in prog.reach([bf]).values() if f.path != bf.path and f.crate == 'libcnb_data']
     top = {}
-    for key, defs in bf.defs().items():
-        if isinstance(key, tuple):
-            for d in defs:
-                if d[0] == 'stmt' and bf.locals[d[4][0]].get('head') == 'libcnb_data::build_plan::BuildPlan':
-                    fld = [p for p in d[4][1:] if p != '*'][0]
-                    v = strip(sl._rvalue(bf, d[3], set(), 0, None))
-                    top[fld] = v[2] if v[0] == 'field' and any(x[0] == 'call' and x[1].endswith('pop_front') for x in walk(v)) else vstr(v)[:50]
+    ors = []
+    pushes = []
+    for f in reach:
+        for key, defs in f.defs().items():
+            if isinstance(key, tuple):
+                for d in defs:
+                    if d[0] == 'stmt' and f.locals[d[4][0]].get('head') == 'libcnb_data::build_plan::BuildPlan':
+                        fld = [p_ for p_ in d[4][1:] if p_ != '*'][0]
+                        v = strip(sl._rvalue(f, d[3], set(), 0, None))
+                        top[fld] = v[2] if v[0] == 'field' and any(x[0] == 'call' and x[1].endswith('pop_front') for x in walk(v)) else vstr(v)[:50]
+        for b in f.blocks:
+            for st in b['s']:
+                if st[0] == '=' and st[2]['r'] == 'agg' and st[2].get('adt') == 'libcnb_data::build_plan::Or':
+                    ors.append((f, st))
+        pushes += [(f, c) for c in f.calls if c.name == 'std::vec::Vec::<T, A>::push' and f.locals[c.args[0].get('m', c.args[0].get('c', [0]))[0]]['ty'].endswith('Or>')]
     rep.check(top.get('.provides') == '0' and top.get('.requires') == '1', 'R4', 'build/top-level', '%s:%d' % (bf.file, bf.line),
               'top level provides <- head.0, requires <- head.1', 'top-level group is assigned from %s' % top)
-    ors = [s for b in bf.blocks for s in b['s'] if s[0] == '=' and s[2]['r'] == 'agg' and s[2].get('adt') == 'libcnb_data::build_plan::Or']
     ok = len(ors) == 1
     if ok:
-        v = sl._rvalue(bf, ors[0][2], set(), 0, None)
-        f = dict(v[3])
-        p, r = strip(f['provides']), strip(f['requires'])
-        it_ok = all(x[0] == 'field' and x[2] == i and any(y[0] == 'call' and y[1] == 'std::iter::Iterator::next' for y in walk(x)) for x, i in ((p, '0'), (r, '1')))
+        f, st = ors[0]
+        v = sl._rvalue(f, st[2], set(), 0, None)
+        fl = dict(v[3])
+        p_, r_ = strip(fl['provides']), strip(fl['requires'])
+        it_ok = all(x[0] == 'field' and x[2] == i and any(y[0] == 'call' and y[1] == 'std::iter::Iterator::next' for y in walk(x)) for x, i in ((p_, '0'), (r_, '1')))
         rev = any(y[0] == 'call' and 'rev' in y[1].split('::')[-1].lower() for y in walk(v))
         ok = it_ok and not rev
     rep.check(ok, 'R4', 'build/alternatives', '%s:%d' % (bf.file, bf.line), 'remaining groups mapped in order to Or{provides <- .0, requires <- .1}',
               'alternatives are not mapped one-to-one in order')
-    pushes = [c for c in bf.calls if c.name == 'std::vec::Vec::<T, A>::push']
-    rep.check(len(pushes) == 1 and bf.in_loop(pushes[0].bb), 'R4', 'build/push-each', '%s:%d' % (bf.file, bf.line), 'each alternative pushed once', 'or-list is not built by one push per alternative')
+    vp = [c for f, c in pushes if f.in_loop(c.bb)]
+    rep.check(len(vp) == 1, 'R4', 'build/push-each', '%s:%d' % (bf.file, bf.line), 'each alternative pushed once', 'or-list is not built by one push per alternative')
     # ---- R5 ------------------------------------------------------------------------------------------
     w = prog.fn('libcnb_common::toml_file::write_toml_file')
     rep.analysed(w)
